@@ -184,6 +184,7 @@ func (s *Skiplist) NewLevel(randFn func() float32) int {
 
 	level := int(atomic.LoadInt32(&s.level))
 	if nextLevel > level {
+		verifYield(vpNewLevel, unsafe.Pointer(s))
 		if atomic.CompareAndSwapInt32(&s.level, int32(level), int32(level+1)) {
 			nextLevel = level + 1
 		} else {
@@ -195,6 +196,7 @@ func (s *Skiplist) NewLevel(randFn func() float32) int {
 }
 
 func (s *Skiplist) helpDelete(level int, prev, curr, next *Node, sts *Stats) bool {
+	verifYield(vpHelpDelete, unsafe.Pointer(s))
 	success := prev.dcasNext(level, curr, next, false, false)
 	if success && level == 0 {
 		sts.AddInt64(&sts.softDeletes, -1)
@@ -219,9 +221,11 @@ retry:
 	prev := s.head
 	level := int(atomic.LoadInt32(&s.level))
 	for i := level; i >= 0; i-- {
+		verifYield(vpFindLevel, unsafe.Pointer(s))
 		curr, _ := prev.getNext(i)
 	levelSearch:
 		for {
+			verifYield(vpFindNext, unsafe.Pointer(s))
 			next, deleted := curr.getNext(i)
 			for deleted {
 				if !s.helpDelete(i, prev, curr, next, sts) {
@@ -229,6 +233,7 @@ retry:
 					goto retry
 				}
 
+				verifYield(vpFindNext, unsafe.Pointer(s))
 				curr, _ = prev.getNext(i)
 				next, deleted = curr.getNext(i)
 			}
@@ -308,6 +313,7 @@ retry:
 	}
 
 	// Now node is part of the skiplist
+	verifYield(vpInsPublish, unsafe.Pointer(s))
 	if !buf.preds[0].dcasNext(0, buf.succs[0], x, false, false) {
 		sts.AddUint64(&sts.insertConflicts, 1)
 		goto retry
@@ -317,6 +323,7 @@ retry:
 	for i := 1; i <= int(itemLevel); i++ {
 	fixThisLevel:
 		for {
+			verifYield(vpInsUpRead, unsafe.Pointer(s))
 			nodeNext, deleted := x.getNext(i)
 			next := buf.succs[i]
 
@@ -327,6 +334,7 @@ retry:
 				goto finished
 			}
 
+			verifYield(vpInsUpLink, unsafe.Pointer(s))
 			if buf.preds[i].dcasNext(i, next, x, false, false) {
 				// A concurrent delete may have marked this level and finished
 				// its cleanup before the link above; unlink the node again.
@@ -355,6 +363,7 @@ func (s *Skiplist) softDelete(delNode *Node, sts *Stats) bool {
 	for i := targetLevel; i >= 0; i-- {
 		next, deleted := delNode.getNext(i)
 		for !deleted {
+			verifYield(vpSoftMark, unsafe.Pointer(s))
 			if delNode.dcasNext(i, next, next, false, true) && i == 0 {
 				sts.AddInt64(&sts.softDeletes, 1)
 				marked = true
@@ -397,6 +406,7 @@ func (s *Skiplist) DeleteNode2(n *Node, cmp CompareFn,
 func (s *Skiplist) deleteNode(n *Node, cmp CompareFn, buf *ActionBuffer, sts *Stats) bool {
 	itm := n.Item()
 	if s.softDelete(n, sts) {
+		verifYield(vpDelSearch, unsafe.Pointer(s))
 		s.findPath(itm, cmp, buf, sts)
 		return true
 	}
